@@ -4,7 +4,7 @@
    the real tool by harness/shell_corr.py, and checked end to end by the oracle in props/c19.py. *)
 From Coq Require Import List NArith Bool.
 From NV Require Import Lib.Res Gen.Copy Copy.Model Copy.Proofs.
-From NV Require Gen.Fat FatVol.Model FatVol.ProofsInv FatVol.Proofs Shell.Paths.
+From NV Require Gen.Fat FatVol.Model FatVol.ProofsInv FatVol.Proofs Shell.Paths Shell.PathAlg.
 Import ListNotations.
 Open Scope N_scope.
 
@@ -165,3 +165,33 @@ Print Assumptions C19_image_word_complete.
 Theorem C19_host_word : forall s, ~ In 58 s -> Shell.Paths.parse_image_word s = None.
 Proof. exact Shell.Paths.host_words. Qed.
 Print Assumptions C19_host_word.
+
+(* the path algebra with which cp / mv / prep build destination paths (`dest / item.name`, `path.relative_to(source)`,
+   `parent`): parsing yields canonical tuples and is idempotent, a path survives being written out and parsed again, the name
+   of `p / n` is n and its parent is p, and relative_to gives back exactly what was appended *)
+Theorem C19_parts_canonical : forall segs, Shell.PathAlg.canonical (Shell.PathAlg.get_parts segs) = true.
+Proof. exact Shell.PathAlg.get_parts_canonical. Qed.
+Print Assumptions C19_parts_canonical.
+
+Theorem C19_parts_stable : forall parts, Shell.PathAlg.canonical parts = true -> Shell.PathAlg.get_parts parts = parts.
+Proof. exact Shell.PathAlg.get_parts_stable. Qed.
+Print Assumptions C19_parts_stable.
+
+Theorem C19_path_survives_printing : forall parts, Shell.PathAlg.canonical parts = true -> parts <> [] ->
+  Shell.PathAlg.get_parts [Shell.PathAlg.path_str parts] = parts.
+Proof. exact Shell.PathAlg.parse_str. Qed.
+Print Assumptions C19_path_survives_printing.
+
+Theorem C19_child_path : forall parts n, Shell.PathAlg.canonical parts = true -> parts <> [] ->
+  Shell.PathAlg.slash_free n = true -> n <> [] ->
+  Shell.PathAlg.joinpath parts [n] = parts ++ [n] /\ Shell.PathAlg.name (Shell.PathAlg.joinpath parts [n]) = n /\
+  (parts <> [[46]] -> List.length parts = 1%nat -> Shell.PathAlg.parent (Shell.PathAlg.joinpath parts [n]) = parts) /\
+  (2 <= List.length parts -> Shell.PathAlg.parent (Shell.PathAlg.joinpath parts [n]) = parts)%nat.
+Proof. exact Shell.PathAlg.joinpath_child. Qed.
+Print Assumptions C19_child_path.
+
+Theorem C19_relative_to_gives_back_what_was_appended : forall a b,
+  Shell.PathAlg.canonical a = true -> Shell.PathAlg.canonical b = true -> Shell.PathAlg.is_absolute b = false ->
+  Shell.PathAlg.canon_tail b = true -> Shell.PathAlg.relative_to (a ++ b) a = Some b.
+Proof. exact Shell.PathAlg.relative_to_joined. Qed.
+Print Assumptions C19_relative_to_gives_back_what_was_appended.
